@@ -105,6 +105,38 @@ func VerifHarness_C08_O2join() {
 	verifReach("end")
 }
 
+// C08/O2joinKnown — a CORRECTLY signed membership request (validity symbolic)
+// naming a peer the node already knows (another validator, or the node itself)
+// or a new peer, of symbolic type, arriving at a node that has not decided any
+// round yet (no last consensus round) or holds a few events: answered without a
+// crash; a request for a known peer is answered at once and queues nothing.
+func VerifHarness_C08_O2joinKnown() {
+	vn := verifNewNode(3, 0, 1000)
+	if verifChoice("nodeHoldsEvents", 2) == 1 {
+		vn.seed([]int{1, 1, 0})
+	}
+	vn.n.SetState(state.Babbling)
+	who := []int{1, 0, 5}[verifChoice("peerNamed", 3)]
+	p := *verifPeer(who)
+	itx := hg.NewInternalTransaction(hg.TransactionType(verifNondetByte("type")), p)
+	ih, _ := itx.Body.Hash()
+	ok := verifNondetBool("signatureValid")
+	itx.Signature = verifSignature(verifKey(who), ih, ok)
+	var resp net.RPCResponse
+	if verifCrashFree("signed-membership-request-does-not-crash-the-node", func() { resp = vn.rpc(&net.JoinRequest{InternalTransaction: itx}) }) {
+		return
+	}
+	if !ok {
+		verifAssert("badly-signed-request-refused-and-not-queued", resp.Error != nil && len(vn.n.core.internalTransactionPool) == 0)
+	}
+	if ok && who < 3 {
+		jr, isJoin := resp.Response.(*net.JoinResponse)
+		verifAssert("request-for-a-known-peer-answered-at-once-nothing-queued", resp.Error == nil && isJoin && jr.Accepted && len(jr.Peers) == 3 && len(vn.n.core.internalTransactionPool) == 0)
+		verifReach("known-peer-request-answered")
+	}
+	verifReach("end")
+}
+
 // C08/O5 — a hostile fast-forward RESPONSE (structurally valid after JSON
 // decoding, hostile contents) must not crash the catching-up node: nil entries
 // in the frame's peer list, event list, roots and peer-set history, a frame
